@@ -13,8 +13,8 @@ Core Lean only.  Everything lives in `Ypv.Search`.
 * a mapping that uses YAML merge keys (`<<: *b`) has, next to its own entries
   (`CommentedMap.non_merged_items()`), the entries it inherits (`items()` lists them after the own
   ones) and the list of anchor names under which `all_anchors` knows its merge references
-  (what the loop over `data.merge` × `all_anchors.items()` of the merge-key block finds; computed
-  from the real objects by the harness, checked there to be the anchors of the referenced maps).
+  (what the loop over `data.merge` × `all_anchors.items()` of the merge-key block finds — by object
+  identity, after `fixes/C07-7`; computed from the real objects by the harness).
 `ofNode` embeds `Node`.  Aliases are repeated equal subtrees / keys carrying the same anchor name.
 
 ## Matching
@@ -27,7 +27,7 @@ out of model by the driver and not judged.
 
 ## Code state mirrored
 
-The model mirrors `yaml_paths.py` **as it reads after `fixes/C07-1 … C07-6`** (see notes/C07.md):
+The model mirrors `yaml_paths.py` **as it reads after `fixes/C07-1 … C07-7`** (see notes/C07.md):
 sets inside sequences are searched; a value alias that is not asked for is skipped together with
 its children also when reference names are not searched; the merge-key block runs only when
 reference names are searched; the name of an aliased key is not matched when key aliases are not
@@ -291,8 +291,8 @@ def sNode (c : Ctx) : SNode → Str → SAddr → List Str → Out
     (h1 ++ h2 ++ h3, s2)
   | .set _ ms, bp, ad, seen => sMembers c ms (mapPrefix c bp) ad seen
   | .scalar _ v, bp, ad, seen =>
-    -- a scalar document (`fixes/C07-5`); never reached by the recursion
-    (if bp = [] then valueHit c v (rootFix c bp) ad else [], seen)
+    -- a scalar document (`fixes/C07-5`; `data is not None`); never reached by the recursion
+    (if bp = [] ∧ v ≠ .null then valueHit c v (rootFix c bp) ad else [], seen)
 def sItems (c : Ctx) : List SNode → Nat → Str → SAddr → List Str → Out
   | [], _, _, _, seen => ([], seen)
   | ele :: rest, i, bp1, ad, seen =>
